@@ -10,6 +10,12 @@ sys.path.insert(0, os.path.join(common.VERIF, 'checks'))
 
 
 def main():
+    import resource
+    try:
+        # an encoding that explodes must end as an error of this check, not take the machine down
+        resource.setrlimit(resource.RLIMIT_AS, (40 << 30, 40 << 30))
+    except (ValueError, OSError):
+        pass
     ap = argparse.ArgumentParser()
     ap.add_argument('prop')
     ap.add_argument('--tier', default=os.environ.get('VERIF_TIER', 'quick'), choices=['quick', 'thorough'])
@@ -23,6 +29,9 @@ def main():
             rc = mod.run(a.tier)
     except common.Inconclusive as e:
         common.log('INCONCLUSIVE %s: %s' % (a.prop, e))
+        rc = 2
+    except MemoryError:
+        common.log('INCONCLUSIVE %s: out of memory (encoding too large for the bound)' % a.prop)
         rc = 2
     except Exception:
         traceback.print_exc()
